@@ -89,6 +89,8 @@ def build_real(prog, log):
                 n = u[0].pluck(list(spec[1]) if isinstance(spec[1], tuple) else spec[1])
             elif k == "collect":
                 n = u[0].collect()
+            elif k == "sinkf":
+                n = u[0].sink(FUNCS[spec[1]])
             elif k == "union":
                 n = sc.union(*u)
             elif k == "zip":
@@ -156,6 +158,7 @@ class _Run:
         self.rcs = {}       # eid -> counter
         self.hist = {}      # eid -> list of counts
         self.fired = collections.Counter()
+        self.failed = set()
 
     def _metadata(self, k):
         from streamz import RefCounter
@@ -192,22 +195,67 @@ class _Run:
         self.log.clear()
         exp = []
         if op[0] == "e":
-            _, entry, x, k = op
+            entry, x, k = op[1], op[2], op[3]
+            target = op[4] if len(op) > 4 else 0
             md = self._metadata(k)
             eid = self.eid
             self.eid += 1
+            from .refmodel import FAULT, Boom
+            FAULT.arm(target)
+            ref_failed = False
+            snap = self.ref.snapshot()
             try:
                 self.ref.emit(entry, V(x, (eid,)), exp)
             except RecursionError:
+                FAULT.arm(0)
                 return ("reference-diverges", entry, "feedback without a fixed point: not a valid program")
+            except Boom:
+                ref_failed = True
+            ref_calls = FAULT.count
+            alt = None
+            if ref_failed:
+                # second admissible behaviour: failure carried by an awaitable, siblings continue
+                after_abort = self.ref.snapshot()
+                self.ref.restore(snap)
+                self.ref.continue_mode = True
+                self.ref.boomed = False
+                FAULT.arm(target)
+                alt_exp = []
+                try:
+                    self.ref.emit(entry, V(x, (eid,)), alt_exp)
+                except Boom:
+                    pass
+                self.ref.continue_mode = False
+                alt = (alt_exp, self.ref.snapshot())
+                self.ref.restore(after_abort)
+            FAULT.arm(target)
+            raised = None
             try:
                 if md is None:
                     self.nodes[entry].emit(x)
                 else:
                     self.nodes[entry].emit(x, metadata=md)
             except Exception as e:   # noqa
+                raised = e
+            injected = FAULT.raised
+            FAULT.arm(0)
+            if ref_failed:
+                self.failed.add(eid)
+            if target and not ref_failed:
+                return ("no-such-invocation", entry, ref_calls)      # alphabet entry not applicable here
+            if ref_failed and alt is not None:
+                got_now = [(n, _fz(v)) for n, v, m in self.log]
+                if got_now != [(n, _fz(v.val)) for n, v in exp] and got_now == [(n, _fz(v.val)) for n, v in alt[0]]:
+                    exp[:] = alt[0]
+                    self.ref.restore(alt[1])
+            if check and ref_failed:
+                if raised is None:
+                    return ("not-raised", self._first_div(exp), dict(injected=repr(injected)))
+                if raised is not injected:
+                    return ("wrong-exception", self._first_div(exp), dict(raised=repr(raised)[:120], injected=repr(injected)))
+            elif raised is not None:
                 if check:
-                    return ("exception", self._first_div(exp), "%s: %s" % (type(e).__name__, str(e)[:120]))
+                    return ("exception", self._first_div(exp), "%s: %s" % (type(raised).__name__, str(raised)[:120]))
                 return None
         else:
             _, nid = op
@@ -236,7 +284,12 @@ class _Run:
                     return ("md-identity", n, dict(value=_fz(v)))
         if self.mode == "rc":
             held = self.ref.held()
+            for e in self.failed:
+                if self.fired[e]:
+                    return ("callback-on-failed", self._holder_site(e), dict(element=e, history=self.hist[e], fired=self.fired[e]))
             for e, rc in self.rcs.items():
+                if self.failed:
+                    break       # partial retains of a failed push make exact accounting undefined
                 h = self.hist[e]
                 if any(c < 0 for c in h):
                     return ("negative", self._holder_site(e), dict(element=e, history=h))
@@ -347,7 +400,7 @@ def bfs(prog, alphabet, depth, mode, max_states=None):
                     runs += 1
                     transitions += 1
                     if v is not None:
-                        if v[0] == "reference-diverges":
+                        if v[0] in ("reference-diverges", "no-such-invocation"):
                             run.close()
                             continue
                         sig = (v[0], v[1])
